@@ -37,6 +37,9 @@ let bytes_of_hex s =
 let hex_of_bytes bs =
   if bs = [] then "-" else String.concat "" (List.map (fun b -> Printf.sprintf "%02x" (int_of_z b land 255)) bs)
 
+let runes_of_string s = if s = "-" then [] else List.map z_of_hex (String.split_on_char ',' s)
+let string_of_runes rs = if rs = [] then "-" else String.concat "," (List.map hex_of_z rs)
+
 let res_str f r = match r with
   | Ok a -> f a
   | Err _ -> "err"
@@ -59,6 +62,14 @@ let handle line =
   | ["enckind"; k; v] -> res_str (fun bs -> "ok " ^ hex_of_bytes bs) (enc_kind (kind_of_string k) (z_of_hex v))
   | ["decfield"; k; h] -> res_str num_rest (dec_field_kind (kind_of_string k) (bytes_of_hex h))
   | ["dectop"; h] -> res_str num_rest (dec_top_int (bytes_of_hex h))
+  | ["encdouble"; b] -> res_str (fun bs -> "ok " ^ hex_of_bytes bs) (gencodeDouble (z_of_hex b))
+  | ["decdouble"; h] -> res_str (fun (v, r) -> Printf.sprintf "ok %s %d" (if is_nan64 v then "nan" else hex_of_z v) (List.length r)) (decode_double (bytes_of_hex h))
+  | ["encdate"; s; n] -> hex_of_bytes (gencodeDate (z_of_hex s) (z_of_hex n))
+  | ["decdate"; h] -> res_str (fun ((s, n), r) -> Printf.sprintf "ok %s %s %d" (hex_of_z s) (hex_of_z n) (List.length r)) (decode_date (bytes_of_hex h))
+  | ["encstr"; rs] -> hex_of_bytes (encode_string (runes_of_string rs))
+  | ["decstr"; h] -> res_str (fun (rs, r) -> Printf.sprintf "ok %s %d" (string_of_runes rs) (List.length r)) (decode_string (bytes_of_hex h))
+  | ["encbin"; h] -> hex_of_bytes (encode_binary (bytes_of_hex h))
+  | ["decbin"; h] -> res_str (fun (bs, r) -> Printf.sprintf "ok %s %d" (hex_of_bytes bs) (List.length r)) (decode_binary (bytes_of_hex h))
   | _ -> Driver_ext.handle line
 
 let () =
